@@ -291,3 +291,20 @@ Proof.
   intros c parent progs. split; [exact (fork_child_counters_zero c parent progs) | reflexivity].
 Qed.
 Print Assumptions C08_fork_child_partial.
+
+(* The cap function (compared with slow_work_thread_threshold() of the library for every
+   nthreads 1..1024): for every pool size n >= 1, 1 <= threshold n <= n - so the wait predicate
+   "only the marker is queued and slow_running >= threshold" is false on a pool with no slow work
+   running, and a worker of such a pool that finds the marker and a pending slow request takes
+   it: a slow request can always run on an idle pool, also a pool of one thread. *)
+Theorem C08_threshold_bounds :
+  forall n, 1 <= n ->
+  (1 <= threshold n <= n /\ Nat.leb (threshold n) 0 = false) /\
+  forall (c : config) (t w aux : nat) (s : state) (r : nat) (sp' : list nat) (fuel : nat),
+    c_n c = n -> wq s = [ISlowMsg] -> sp s = r :: sp' -> running s = 0 ->
+    exists b, wk (wloop (S fuel) c t w aux s) w = WRun r b.
+Proof.
+  intros n Hn. split; [exact (threshold_bounds n Hn)|].
+  intros c t w aux s r sp' fuel Hc. apply idle_pool_takes_slow. lia.
+Qed.
+Print Assumptions C08_threshold_bounds.
